@@ -88,7 +88,9 @@ def config_strategy() -> Any:
         pauses = []
         if faults != "none" and draw(st.booleans()):  # flow control: the transport pauses the protocol's writing for a while
             pauses = [[draw(st.sampled_from((0.02, 0.3, 1.0, 3.5, 8.0, 31.0))), draw(st.sampled_from((0.2, 1.0, 5.0)))] for _ in range(draw(st.integers(1, 3)))]
-        return {"config": cfg, "learn": draw(st.sampled_from(("schema", "heard", "heard-during-start"))), "mask": mask, "faults": faults, "pauses": pauses, "rnd": draw(st.integers(0, 999))}
+        return {"config": cfg, "learn": draw(st.sampled_from(("schema", "heard", "heard-during-start"))),
+                # the host application saves its state while discovery is under way (Home Assistant does so periodically)
+                "snapshots": sorted(draw(st.lists(st.sampled_from((2.0, 20.0, 70.0, 400.0, 3000.0, 30000.0)), max_size=2, unique=True))) if draw(st.booleans()) else [], "mask": mask, "faults": faults, "pauses": pauses, "rnd": draw(st.integers(0, 999))}
 
     return build
 
@@ -276,6 +278,14 @@ async def _run(loop: Any, case: dict) -> dict:
     gwy, port = await stack.make_gateway(eth, gwy_id=GWY, config={"disable_discovery": False, "enable_eavesdrop": False}, schema=schema)
     obs_started_with_tcs = gwy.tcs is not None
     ctl.start_cycle()
+    def _snap() -> None:
+        try:
+            gwy.get_state()
+        except Exception as e:  # noqa: BLE001 - a failing snapshot is C13's business; here only its effect on discovery matters
+            obs.setdefault("snapshot_raised", repr(e)[:120])
+
+    for at in case.get("snapshots", []):
+        loop.call_later(at, _snap)
     for at, dur in case.get("pauses", []):
         loop.call_later(at, gwy._protocol.pause_writing)
         loop.call_later(at + dur, gwy._protocol.resume_writing)
@@ -396,9 +406,9 @@ def explore(job: dict) -> dict:
         obs = execute(case)
         cfg = case["config"]
         classes = {z["class"] for z in cfg["zones"].values()}
-        nt = len(classes) >= 2 or bool(cfg["dhw"]) or obs["n_lost"] > 0 or bool(case.get("pauses"))
+        nt = len(classes) >= 2 or bool(cfg["dhw"]) or obs["n_lost"] > 0 or bool(case.get("pauses")) or bool(case.get("snapshots"))
         col.case(nt=jdump(case) if nt else None,
-                 classes=["cfg", f"faults:{case['faults']}", "paused-writing" if case.get("pauses") else "never-paused", "converged-in-first-round" if (obs.get("t_converged") or 1e9) <= 3600 else "converged-later" if obs.get("t_converged") else "not-converged", f"learn:{case['learn']}", "controller-known-when-start-returns" if obs.get("tcs_at_start") else "controller-learned-after-start", f"zones:{min(len(cfg['zones']), 12) // 4 * 4}+", "dhw" if cfg["dhw"] else "no-dhw",
+                 classes=["cfg", f"faults:{case['faults']}", "paused-writing" if case.get("pauses") else "never-paused", "snapshot-taken-meanwhile" if case.get("snapshots") else "no-snapshot", "converged-in-first-round" if (obs.get("t_converged") or 1e9) <= 3600 else "converged-later" if obs.get("t_converged") else "not-converged", f"learn:{case['learn']}", "controller-known-when-start-returns" if obs.get("tcs_at_start") else "controller-learned-after-start", f"zones:{min(len(cfg['zones']), 12) // 4 * 4}+", "dhw" if cfg["dhw"] else "no-dhw",
                           f"app:{(cfg['appliance_control'] or 'none')[:2]}", "ctl-as-sensor" if any(z["sensor"] == CTL for z in cfg["zones"].values()) else "no-ctl-sensor",
                           "high-zones" if any(int(z, 16) >= 8 for z in cfg["zones"]) else "low-zones-only"],
                  sample={"config": cfg, "learn": case["learn"], "faults": case["faults"], "converged_s": obs.get("t_converged"), "requests": obs["n_requests"],
